@@ -164,6 +164,37 @@ class FuncADLIndexError(Exception):
         Exception.__init__(self, msg)
 
 
+def _is_stream_call(node: ast.AST, name: str) -> bool:
+    """Is this `name(sequence, lambda x: ...)` the way the rewrite rules below expect it: two
+    positional arguments, the second a lambda that can be called with one argument? A call of
+    another shape (keywords, other argument counts, a function passed by name, `*args`) is
+    none of their business."""
+    if not is_call_of(node, name):
+        return False
+    assert isinstance(node, ast.Call)
+    if len(node.keywords) > 0 or len(node.args) != 2:
+        return False
+    if any(isinstance(a, ast.Starred) for a in node.args):
+        return False
+    f = node.args[1]
+    if not isinstance(f, ast.Lambda):
+        return False
+    a = f.args
+    if a.vararg or a.kwarg or a.kwonlyargs or a.posonlyargs:
+        return False
+    return len(a.args) - len(a.defaults) <= 1 <= len(a.args)
+
+
+def _is_first_call(node: ast.AST) -> bool:
+    "Is this `First(sequence)`, with nothing else?"
+    return (
+        is_call_of(node, "First")
+        and len(node.args) == 1  # type: ignore
+        and len(node.keywords) == 0  # type: ignore
+        and not isinstance(node.args[0], ast.Starred)  # type: ignore
+    )
+
+
 def _is_method_call_on_first(node: ast.Call):
     """
     Determine if this is a call like First(seq).method(args).
@@ -171,7 +202,7 @@ def _is_method_call_on_first(node: ast.Call):
     if not isinstance(node.func, ast.Attribute):
         return False
 
-    if not is_call_of(node.func.value, "First"):
+    if not _is_first_call(node.func.value):
         return False
 
     return True
@@ -179,14 +210,14 @@ def _is_method_call_on_first(node: ast.Call):
 
 def _yields_dicts(seq: ast.AST) -> bool:
     "Is this a sequence whose items are built as dictionary literals?"
-    if is_call_of(seq, "Select") or is_call_of(seq, "SelectMany"):
+    if _is_stream_call(seq, "Select") or _is_stream_call(seq, "SelectMany"):
         f = seq.args[1]  # type: ignore
         if not isinstance(f, ast.Lambda):
             return False
-        if is_call_of(seq, "Select"):
+        if _is_stream_call(seq, "Select"):
             return isinstance(f.body, ast.Dict)
         return _yields_dicts(f.body)
-    if is_call_of(seq, "Where"):
+    if _is_stream_call(seq, "Where"):
         return _yields_dicts(seq.args[0])  # type: ignore
     return False
 
@@ -279,9 +310,9 @@ class simplify_chained_calls(FuncADLNodeTransformer):
         assert isinstance(transform, ast.Lambda)
 
         parent_select = self.visit(source)
-        if is_call_of(parent_select, "Select"):
+        if _is_stream_call(parent_select, "Select"):
             return self.visit_Select_of_Select(parent_select, transform)
-        elif is_call_of(parent_select, "SelectMany"):
+        elif _is_stream_call(parent_select, "SelectMany"):
             return self.visit_Select_of_SelectMany(parent_select, transform)
         else:
             selection = self.visit(transform)
@@ -352,9 +383,9 @@ class simplify_chained_calls(FuncADLNodeTransformer):
         selection = args[1]
         assert isinstance(selection, ast.Lambda)
         parent_select = self.visit(args[0])
-        if is_call_of(parent_select, "SelectMany"):
+        if _is_stream_call(parent_select, "SelectMany"):
             return self.visit_SelectMany_of_SelectMany(parent_select, selection)
-        elif is_call_of(parent_select, "Select"):
+        elif _is_stream_call(parent_select, "Select"):
             return self.visit_SelectMany_of_Select(parent_select, selection)
         else:
             return function_call("SelectMany", [parent_select, self.visit(selection)])
@@ -451,11 +482,11 @@ class simplify_chained_calls(FuncADLNodeTransformer):
         assert isinstance(filter, ast.Lambda)
 
         parent_where = self.visit(source)
-        if is_call_of(parent_where, "Where"):
+        if _is_stream_call(parent_where, "Where"):
             return self.visit_Where_of_Where(parent_where, filter)
-        elif is_call_of(parent_where, "Select"):
+        elif _is_stream_call(parent_where, "Select"):
             return self.visit_Where_of_Select(parent_where, filter)
-        elif is_call_of(parent_where, "SelectMany"):
+        elif _is_stream_call(parent_where, "SelectMany"):
             return self.visit_Where_of_SelectMany(parent_where, filter)
         else:
             f = self.visit(filter)
@@ -523,6 +554,12 @@ class simplify_chained_calls(FuncADLNodeTransformer):
                 return self.visit(func.body)
         elif _is_method_call_on_first(call_node):
             return self.select_method_call_on_first(call_node)
+        elif any(
+            is_call_of(call_node, name) and not _is_stream_call(call_node, name)
+            for name in ("Select", "SelectMany", "Where")
+        ):
+            # Named like a stream operator, but not called like one: only look inside.
+            return self.generic_visit(call_node)
         else:
             return FuncADLNodeTransformer.visit_Call(self, call_node)
 
@@ -642,7 +679,7 @@ class simplify_chained_calls(FuncADLNodeTransformer):
             if type(v) is ast.Dict:
                 return self.visit_Subscript_Dict(v, s)
 
-        if is_call_of(v, "First"):
+        if _is_first_call(v):
             return self.visit_Subscript_Of_First(v.args[0], s)
 
         # Nothing interesting, so do the normal thing several levels down.
@@ -679,13 +716,13 @@ class simplify_chained_calls(FuncADLNodeTransformer):
         Otherwise, we need to make sure to make a new version of the Attribute so it does
         not get reused'
         """
-        if is_call_of(node.value, "First"):
+        if _is_first_call(node.value):
             return self.visit_Attribute_Of_First(node.value.args[0], node.attr)  # type: ignore
 
         visited_value = self.visit(node.value)
         if isinstance(visited_value, ast.Dict):
             return self.visit_Subscript_Dict_with_value(visited_value, node.attr)
-        if is_call_of(visited_value, "First") and _yields_dicts(visited_value.args[0]):
+        if _is_first_call(visited_value) and _yields_dicts(visited_value.args[0]):
             # It became the First of a sequence of dictionaries only now (a parameter replaced
             # by the previous stage's result): look the key up inside, as for a subscript.
             return self.visit_Attribute_Of_First(visited_value.args[0], node.attr)
